@@ -6,7 +6,9 @@ cd /repo || exit 9
 if ! git diff --quiet; then echo "/repo is dirty"; exit 9; fi
 git apply "$patch" || { echo "patch does not apply"; exit 9; }
 cd /verif
+rm -rf /tmp/ev_backup && cp -r evidence /tmp/ev_backup
 VERIF_BUDGET_S=${VERIF_BUDGET_S:-900} python3-vt -m "$mod" "$tier" 2>&1 | tail -${TAILN:-6}
 rc=${PIPESTATUS[0]}
 git -C /repo checkout -- .
+rm -rf /verif/evidence && cp -r /tmp/ev_backup /verif/evidence && rm -rf /tmp/ev_backup
 echo "rc=$rc"
